@@ -2,6 +2,7 @@ package props
 
 import (
 	"fmt"
+	"reflect"
 	"strings"
 	"testing"
 
@@ -31,24 +32,56 @@ type c17Ref struct{ name string }
 
 var c17A, c17B = &c17Ref{"A"}, &c17Ref{"B"}
 
+var (
+	c17F1 = func(r rune) bool { return true }
+	c17F2 = func(r rune) bool { return false }
+	c17S1 = []string{"s1"}
+	c17M1 = map[string]int{"m1": 1}
+)
+
+// references 1, 2: pointers; 3, 4: function values; 5: a slice; 6: a map (types that do not support ==)
 func c17RefOf(i int) interface{} {
 	switch i {
 	case 1:
 		return c17A
 	case 2:
 		return c17B
+	case 3:
+		return c17F1
+	case 4:
+		return c17F2
+	case 5:
+		return c17S1
+	case 6:
+		return c17M1
 	}
 	return nil
 }
 
+// c17Same: identity of references, also for the types that == cannot compare.
+func c17Same(got, want interface{}) bool {
+	if got == nil || want == nil {
+		return got == nil && want == nil
+	}
+	gv, wv := reflect.ValueOf(got), reflect.ValueOf(want)
+	if gv.Type() != wv.Type() {
+		return false
+	}
+	switch gv.Kind() {
+	case reflect.Func, reflect.Slice, reflect.Map, reflect.Ptr:
+		return gv.Pointer() == wv.Pointer()
+	}
+	return false
+}
+
 func c17Name(v interface{}) string {
-	switch v {
-	case nil:
+	if v == nil {
 		return "none"
-	case interface{}(c17A):
-		return "A"
-	case interface{}(c17B):
-		return "B"
+	}
+	for i, n := range []string{"", "A", "B", "F1", "F2", "S1", "M1"} {
+		if i > 0 && c17Same(v, c17RefOf(i)) {
+			return n
+		}
 	}
 	return fmt.Sprintf("foreign(%T)", v)
 }
@@ -126,7 +159,7 @@ func checkC17(c c17Case) *evid.Fail {
 				}
 				got := m.Lookup(ch)
 				want := c17RefOf(model(ch))
-				if got != want {
+				if !c17Same(got, want) {
 					sig := "lookup-wrong-reference"
 					if ch >= 0x100 {
 						sig += ":above-U+00FF"
@@ -290,13 +323,13 @@ func TestC17_Rapid(t *testing.T) {
 			case 0:
 				ops = append(ops, c17Op{2, 0, 0, 0})
 			case 1:
-				ops = append(ops, c17Op{1, 0, 0, rapid.IntRange(0, 2).Draw(rt, "ref")})
+				ops = append(ops, c17Op{1, 0, 0, rapid.IntRange(0, 6).Draw(rt, "ref")})
 			default:
 				a, b := genC17Rune(rt), genC17Rune(rt)
 				if a > b {
 					a, b = b, a
 				}
-				ops = append(ops, c17Op{0, a, b, rapid.IntRange(0, 2).Draw(rt, "ref")})
+				ops = append(ops, c17Op{0, a, b, rapid.IntRange(0, 6).Draw(rt, "ref")})
 			}
 		}
 		probes := append([]rune{}, c17AllProbes()...)
@@ -336,11 +369,23 @@ func checkC17Tok(c c17TokCase) *evid.Fail {
 			tok := generic.NewGenericTokenizer()
 			tok.ClearCharacterStates()
 			states := []tokenizers.ITokenizerState{nil, tok.WordState(), tok.SymbolState()}
-			for _, r := range c.Regs {
+			for i, r := range c.Regs {
 				if r.Kind == 2 {
 					tok.ClearCharacterStates()
 				} else {
 					tok.SetCharacterState(r.Start, r.End, states[r.Ref])
+				}
+				// swapping, dropping or installing the tokenizer's state objects is not a registration
+				switch (i + len(c.Input)) % 5 {
+				case 0:
+					tok.SetCommentState(nil)
+				case 1:
+					tok.SetCommentState(generic.NewCCommentState())
+				case 2:
+					tok.SetNumberState(nil)
+				case 3:
+					tok.SetQuoteState(generic.NewGenericQuoteState())
+					tok.SetNumberState(generic.NewGenericNumberState())
 				}
 			}
 			for _, ch := range []rune(c.Input) {
